@@ -361,6 +361,26 @@ func (c *Control) RunSchedule(tokens []Token) SchedResult {
 		}
 		return done, !done && !anyParked && anyBlocked
 	}
+	// abandon: some request neither parks nor waits for a lock with a known holder (it waits for something the wrappers cannot see,
+	// e.g. a lock taken inside the locker itself, whose holder may be parked at a gate).  The imposed schedule is given up: every
+	// parked or unstarted request is let go and the requests run freely; whether they finish, or end up waiting on each other,
+	// is then established as usual (logged lock ownership, or the goroutine dump of the watchdog).
+	abandoned := false
+	abandon := func() {
+		abandoned = true
+		res.Deviations = append(res.Deviations, "schedule abandoned: a request neither parks nor waits for a lock with a known holder; all parked requests released")
+		c.mu.Lock()
+		c.gating = false
+		for r, s := range c.reqs {
+			if s.status == "unstarted" {
+				c.startLocked(r)
+			} else {
+				c.releaseLocked(r)
+			}
+		}
+		c.mu.Unlock()
+	}
+tokenLoop:
 	for _, t := range tokens {
 		if t.Site == "start" {
 			c.mu.Lock()
@@ -398,8 +418,8 @@ func (c *Control) RunSchedule(tokens []Token) SchedResult {
 		// although it is parked there, then let it go.
 		for steps := 0; steps < 64; steps++ {
 			if !c.waitStable(to) {
-				res.Stuck = true
-				return res
+				abandon()
+				break tokenLoop
 			}
 			noteBlocked()
 			c.mu.Lock()
@@ -475,6 +495,10 @@ func (c *Control) RunSchedule(tokens []Token) SchedResult {
 	// Drain: release parked requests, lowest id first, until all are done.
 	for i := 0; i < 100000; i++ {
 		if !c.waitStable(to) {
+			if !abandoned {
+				abandon()
+				continue
+			}
 			res.Stuck = true
 			return res
 		}
